@@ -502,6 +502,7 @@ open scoped Matrix
       * POLYNOMIAL MEAN: with β(θ) = (PᵀK⁻¹P)⁻¹PᵀK⁻¹y the GLS coefficients (they DO depend on θ) and
         r(θ) = y − Pβ(θ), the same formula −s(−aᵀ dK a + tr(K⁻¹ dK)), a = K⁻¹r(θ), is the derivative
         (envelope argument: Pᵀa = 0)                       `loglik_grad_poly_mean_matrix`, `loglik_grad_poly_mean`
+      * the same in the log domain (hyperparameter `exp u`, entry scaled by `logScale = exp u`)   `loglik_grad_poly_mean_log`
       * the extra term `2·a·(−P (PᵀK⁻¹P)⁻¹ (K⁻¹P)ᵀ dK a)` the library adds under `include_nonzero_correction`
         is identically 0 in exact arithmetic (again Pᵀa = 0), so both settings of the flag give the
         derivative                                                                   `loglik_grad_correction_zero`
@@ -621,6 +622,21 @@ theorem loglik_grad_poly_mean {n p : ℕ} {K L : ℝ → Matrix (Fin n) (Fin n) 
         (List.ofFn fun i => L t i i))
       ((loglikGrad s (List.ofFn ((K θ)⁻¹ *ᵥ glsResidual P (K θ) y)) (ofFnM (K θ)⁻¹) [ofFnM K'] [1]).getD 0 0) θ :=
   loglik_list_gls_hasDerivAt hK hchol P hG s y
+
+/-- **polynomial mean, log domain** (`log_domain=True`): the hyperparameter is `exp u`, the model's entry
+    carries `logScale = exp u`, and it is the derivative with respect to `u` -/
+theorem loglik_grad_poly_mean_log {n p : ℕ} {K L : ℝ → Matrix (Fin n) (Fin n) ℝ} {K' : Matrix (Fin n) (Fin n) ℝ}
+    {u : ℝ} (hK : ∀ i j, HasDerivAt (fun t => K t i j) (K' i j) (Real.exp u))
+    (hchol : ∀ᶠ t in nhds (Real.exp u),
+      K t = L t * (L t)ᵀ ∧ (∀ i j, i < j → L t i j = 0) ∧ ∀ i, 0 < L t i i)
+    (P : Matrix (Fin n) (Fin p) ℝ) (hG : (Pᵀ * (K (Real.exp u))⁻¹ * P).det ≠ 0) (s : ℝ) (y : Fin n → ℝ) :
+    HasDerivAt
+      (fun v => loglik s (List.ofFn (glsResidual P (K (Real.exp v)) y))
+        (List.ofFn ((K (Real.exp v))⁻¹ *ᵥ glsResidual P (K (Real.exp v)) y))
+        (List.ofFn fun i => L (Real.exp v) i i))
+      ((loglikGrad s (List.ofFn ((K (Real.exp u))⁻¹ *ᵥ glsResidual P (K (Real.exp u)) y))
+        (ofFnM (K (Real.exp u))⁻¹) [ofFnM K'] [Real.exp u]).getD 0 0) u :=
+  loglik_list_gls_log_hasDerivAt hK hchol P hG s y
 
 /-- the normal equations `Pᵀ a = 0`, and their consequence: the term added under
     `include_nonzero_correction` — `2·a·(−P w)` for `w = (PᵀK⁻¹P)⁻¹ (K⁻¹P)ᵀ dK a` — is zero for EVERY `w` -/
